@@ -64,6 +64,9 @@ def _isfin_ens(c):
 REG.contract('Simulation.is_finished', world=SIMW, ensures=_isfin_ens, result='bool', props=['C19', 'C04'])
 
 REG.contract('Simulation.resume', world=SIMW, params={'until': 'num'},
+             ensures=lambda c: [('C11-a-resumed-simulation-stays-marked-running', c.n.self.running.t),
+                                ('C11-the-clock-stops-exactly-at-until', c.n.now == c.o.until.t),
+                                ('C11-resume-leaves-the-output-mode-alone', c.n.self.to_file.t == c.o.self.to_file.t)],
              raises={'RuntimeError': dict(when=lambda c: z3.Not(c.o.self.running.t)),
                      'ValueError': dict(when=lambda c: z3.And(c.o.self.running.t, c.o.until.t <= c.o.now))},
              modifies=['world'], props=['C11'],
